@@ -23,6 +23,24 @@ namespace Fbr.PtRefs
           · rw [tables_freeFd]; exact this
           · exact this
 
+/-- no host answer of the request carries a file handle -/
+def DEnt.NoFh : DEnt → Prop
+  | .dot => True
+  | .name a => a.NoFh
+
+def Op.NoFh : Op → Prop
+  | .lookup _ _ a => a.NoFh
+  | .mkdir _ _ _ a => a.NoFh
+  | .mknod _ _ _ a => a.NoFh
+  | .link _ _ _ _ _ a => a.NoFh
+  | .create _ _ _ _ a _ => a.NoFh
+  | .readdirplus _ _ _ (.ok l) _ _ => ∀ d ∈ l, d.NoFh
+  | .destroy root => root.NoFh
+  | .init root => root.NoFh
+  | _ => True
+
+variable {nf : Bool}
+
 theorem entryRes_fst (x : St × Except Errno Ino) : (entryRes x).1 = x.1 := by
   obtain ⟨s, r⟩ := x; cases r <;> rfl
 
@@ -36,15 +54,23 @@ theorem spec_entryRes (sp : Spec) (op : Op) (x : St × Except Errno Ino)
     subst e <;> cases r <;> rfl
 
 theorem batchForget_tr (e : Env) (l : List (Ino × Nat)) (s : St) (sp : Spec) :
-    Tr e false s sp (batchForget e s l) (sp.forgetAll l) := by
+    Tr e nf false s sp (batchForget e s l) (sp.forgetAll l) := by
   induction l generalizing s sp with
   | nil => exact Tr.rfl' s sp
   | cons p r ih =>
     obtain ⟨i, n⟩ := p
     exact (Tr.forget i n).trans' (ih _ _)
 
-theorem importRoot_tr (e : Env) (s : St) (sp : Spec) (root : HAns) :
-    Tr e true s sp (importRoot e s root).1 sp := by
+theorem insertInode_allocSame (s : St) (ino : Ino) (d : IData) : AllocSame s (insertInode s ino d) := by
+  unfold insertInode
+  cases hmg : mget s.data ino with
+  | none => exact ⟨rfl, rfl, rfl⟩
+  | some old =>
+    have ht := AllocSame.of_tables (tables_dropIData s old)
+    exact ⟨ht.devMap, ht.nextUid, ht.nextVirt⟩
+
+theorem importRoot_tr (e : Env) (s : St) (sp : Spec) (root : HAns) (hf : nf = true → root.NoFh) :
+    Tr e nf true s sp (importRoot e s root).1 sp := by
   unfold importRoot
   have h1 := tables_allocFd e s
   split
@@ -77,6 +103,9 @@ theorem importRoot_tr (e : Env) (s : St) (sp : Spec) (root : HAns) :
         · rw [next_of_tables (tables_settlePath _ _),
             (insertInode_maps s2 ROOT_ID { id := f.id, fh := f.fh, refs := 2, safe := f.safe }).2.2.1,
             next_of_tables h2, next_of_tables h1]
+        · exact (((AllocSame.of_tables h1).trans (AllocSame.of_tables h2)).trans
+            (insertInode_allocSame s2 ROOT_ID _)).trans (AllocSame.of_tables (tables_settlePath _ _))
+        · exact hf
 
 theorem dropAll_tables (l : List (Ino × IData)) (s : St) : (dropAll s l).tables = s.tables := by
   induction l generalizing s with
@@ -84,13 +113,13 @@ theorem dropAll_tables (l : List (Ino × IData)) (s : St) : (dropAll s l).tables
   | cons p r ih => obtain ⟨i, d⟩ := p; simp only [dropAll]; rw [ih, tables_dropIData]
 
 /-- a `do_lookup` bracketed by states that differ only in the ledger -/
-theorem doLookup_tr (e : Env) (s : St) (sp : Spec) (p : Ino) (pst : Bool) (a : HAns) :
-    Tr e false s sp (doLookup e s p pst a).1 (sp.afterLookup (doLookup e s p pst a).2) :=
-  Tr.lookup (doLookup_eff e s p pst a)
+theorem doLookup_tr (e : Env) (s : St) (sp : Spec) (p : Ino) (pst : Bool) (a : HAns) (hf : nf = true → a.NoFh) :
+    Tr e nf false s sp (doLookup e s p pst a).1 (sp.afterLookup (doLookup e s p pst a).2) :=
+  Tr.lookup (doLookup_eff e s p pst a) (doLookup_effU e s p pst a) hf
 
 theorem opMknod_tr (e : Env) (s : St) (sp : Spec) (p : Ino) (pst : Bool) (hr : Errno) (a : HAns)
-    (op : Op) (hop : op = .mkdir p pst hr a ∨ op = .mknod p pst hr a) :
-    Tr e false s sp (opMknod e s p pst hr a).1 (sp.step op (opMknod e s p pst hr a).2) := by
+    (op : Op) (hop : op = .mkdir p pst hr a ∨ op = .mknod p pst hr a) (hf : nf = true → a.NoFh) :
+    Tr e nf false s sp (opMknod e s p pst hr a).1 (sp.step op (opMknod e s p pst hr a).2) := by
   have herr : ∀ er, sp.step op (.err er) = sp := by
     intro er; rcases hop with x | x <;> subst x <;> rfl
   unfold opMknod
@@ -103,7 +132,7 @@ theorem opMknod_tr (e : Env) (s : St) (sp : Spec) (p : Ino) (pst : Bool) (hr : E
     · rename_i s1 heq; rw [heq] at h1
       split
       · rw [herr]; exact Tr.of_tables (by rw [tables_closeTemp]; exact h1)
-      · have hl := doLookup_tr e s1 sp p pst a
+      · have hl := doLookup_tr (nf := nf) e s1 sp p pst a hf
         split
         rename_i s2 r heq2
         have hfst := entryRes_fst (doLookup e s1 p pst a)
@@ -115,15 +144,15 @@ theorem opMknod_tr (e : Env) (s : St) (sp : Spec) (p : Ino) (pst : Bool) (hr : E
         rw [heq2] at hsp
         simp only at hfst hsp
         rw [hsp]
-        have t0 : Tr e false s sp s1 sp := Tr.of_tables h1
-        have t2 : Tr e false (doLookup e s1 p pst a).1 (sp.afterLookup (doLookup e s1 p pst a).2)
+        have t0 : Tr e nf false s sp s1 sp := Tr.of_tables h1
+        have t2 : Tr e nf false (doLookup e s1 p pst a).1 (sp.afterLookup (doLookup e s1 p pst a).2)
             (closeTemp s2 dir.fh.isSome) (sp.afterLookup (doLookup e s1 p pst a).2) :=
           Tr.of_tables (by rw [tables_closeTemp, hfst])
         exact (t0.trans' hl).trans' t2
 
 theorem opLink_tr (e : Env) (s : St) (sp : Spec) (ino : Ino) (ist : Bool) (p : Ino) (pst : Bool)
-    (hr : Errno) (a : HAns) :
-    Tr e false s sp (opLink e s ino ist p pst hr a).1
+    (hr : Errno) (a : HAns) (hf : nf = true → a.NoFh) :
+    Tr e nf false s sp (opLink e s ino ist p pst hr a).1
       (sp.step (.link ino ist p pst hr a) (opLink e s ino ist p pst hr a).2) := by
   have herr : ∀ er, sp.step (.link ino ist p pst hr a) (.err er) = sp := fun _ => rfl
   unfold opLink
@@ -144,7 +173,7 @@ theorem opLink_tr (e : Env) (s : St) (sp : Spec) (ino : Ino) (ist : Bool) (p : I
         · rename_i s2 heq2; rw [heq2] at h2
           split
           · rw [herr]; exact Tr.of_tables (by rw [tables_closeTemp, tables_closeTemp, h2]; exact h1)
-          · have hl := doLookup_tr e s2 sp p pst a
+          · have hl := doLookup_tr (nf := nf) e s2 sp p pst a hf
             split
             rename_i s3 r heq3
             have hfst := entryRes_fst (doLookup e s2 p pst a)
@@ -154,54 +183,55 @@ theorem opLink_tr (e : Env) (s : St) (sp : Spec) (ino : Ino) (ist : Bool) (p : I
             rw [heq3] at hsp
             simp only at hfst hsp
             rw [hsp]
-            have t0 : Tr e false s sp s2 sp := Tr.of_tables (by rw [h2]; exact h1)
+            have t0 : Tr e nf false s sp s2 sp := Tr.of_tables (by rw [h2]; exact h1)
             exact (t0.trans' hl).trans' (Tr.of_tables (by rw [tables_closeTemp, tables_closeTemp, hfst]))
 
 theorem finishCreate_tr (e : Env) (s : St) (sp : Spec) (ino : Ino) (op : Op)
     (hop : ∃ p pst x cr a ohr, op = .create p pst x cr a ohr) :
-    Tr e false s (sp.deliver ino) (finishCreate e s ino).1 (sp.step op (finishCreate e s ino).2) := by
+    Tr e nf false s (sp.deliver ino) (finishCreate e s ino).1 (sp.step op (finishCreate e s ino).2) := by
   obtain ⟨p, pst, x, cr, a, ohr, e1⟩ := hop
   subst e1
   unfold finishCreate
   split
-  · show Tr e false s (sp.deliver ino) _ ({ sp.deliver ino with hnds := mput sp.hnds s.nextHandle ino } : Spec)
-    exact Tr.trans' (Tr.hnds _) (Tr.frame rfl rfl rfl rfl rfl rfl)
+  · show Tr e nf false s (sp.deliver ino) _ ({ sp.deliver ino with hnds := mput sp.hnds s.nextHandle ino } : Spec)
+    exact Tr.trans' (Tr.hnds _) (Tr.frame rfl rfl rfl rfl rfl rfl ⟨rfl, rfl, rfl⟩)
   · exact Tr.of_tables (tables_freeFd s)
 
 theorem createTail_tr (e : Env) (s : St) (sp : Spec) (p : Ino) (pst : Bool) (haveNew : Bool) (a : HAns)
-    (ohr : Errno) (op : Op) (hop : ∃ p pst x cr a ohr, op = .create p pst x cr a ohr) :
-    Tr e false s sp (createTail e s p pst haveNew a ohr).1 (sp.step op (createTail e s p pst haveNew a ohr).2) := by
+    (ohr : Errno) (op : Op) (hop : ∃ p pst x cr a ohr, op = .create p pst x cr a ohr) (hf : nf = true → a.NoFh) :
+    Tr e nf false s sp (createTail e s p pst haveNew a ohr).1 (sp.step op (createTail e s p pst haveNew a ohr).2) := by
   have herr : ∀ er, sp.step op (.err er) = sp := by
     intro er; obtain ⟨p, pst, x, cr, a, ohr, e1⟩ := hop; subst e1; rfl
   unfold createTail
   have hl := doLookup_eff e s p pst a
+  have hlu := doLookup_effU e s p pst a
   split
   · rename_i s1 er heq
-    rw [heq] at hl
+    rw [heq] at hl hlu
     rw [herr]
-    exact (Tr.lookup (sp := sp) hl).trans' (Tr.of_tables (tables_closeTemp _ _))
+    exact (Tr.lookup (sp := sp) hl hlu hf).trans' (Tr.of_tables (tables_closeTemp _ _))
   · rename_i s1 ino heq
-    rw [heq] at hl
-    have t1 : Tr e false s sp s1 (sp.deliver ino) := Tr.lookup hl
+    rw [heq] at hl hlu
+    have t1 : Tr e nf false s sp s1 (sp.deliver ino) := Tr.lookup hl hlu hf
     split
     · exact t1.trans' (finishCreate_tr e s1 sp ino op hop)
     · split
-      · rw [herr]; exact Tr.lookup_undo hl
+      · rw [herr]; exact Tr.lookup_undo hl hlu hf
       · have h2 := tables_openInode e s1 ino ohr
         split
         · rename_i s2 er heq2; rw [heq2] at h2
           rw [herr]
-          have t2 : Tr e false s1 (sp.deliver ino) s2 (sp.deliver ino) := Tr.of_tables h2
-          have t3 := Tr.forget (e := e) (s := s2) (sp := sp.deliver ino) ino 1
+          have t2 : Tr e nf false s1 (sp.deliver ino) s2 (sp.deliver ino) := Tr.of_tables h2
+          have t3 := Tr.forget (e := e) (nf := nf) (s := s2) (sp := sp.deliver ino) ino 1
           rw [deliver_forget_cancel] at t3
           exact (t1.trans' t2).trans' t3
         · rename_i s2 heq2; rw [heq2] at h2
-          have t2 : Tr e false s1 (sp.deliver ino) s2 (sp.deliver ino) := Tr.of_tables h2
+          have t2 : Tr e nf false s1 (sp.deliver ino) s2 (sp.deliver ino) := Tr.of_tables h2
           exact (t1.trans' t2).trans' (finishCreate_tr e s2 sp ino op hop)
 
 theorem opCreate_tr (e : Env) (s : St) (sp : Spec) (p : Ino) (pst : Bool) (excl : Bool) (cr : CreateAns)
-    (a : HAns) (ohr : Errno) :
-    Tr e false s sp (opCreate e s p pst excl cr a ohr).1
+    (a : HAns) (ohr : Errno) (hf : nf = true → a.NoFh) :
+    Tr e nf false s sp (opCreate e s p pst excl cr a ohr).1
       (sp.step (.create p pst excl cr a ohr) (opCreate e s p pst excl cr a ohr).2) := by
   have herr : ∀ er, sp.step (.create p pst excl cr a ohr) (.err er) = sp := fun _ => rfl
   have hop : ∃ p' pst' x cr' a' ohr', Op.create p pst excl cr a ohr = .create p' pst' x cr' a' ohr' :=
@@ -219,16 +249,16 @@ theorem opCreate_tr (e : Env) (s : St) (sp : Spec) (p : Ino) (pst : Bool) (excl 
       · rename_i s2 heq2; rw [heq2] at h2; rw [herr]
         exact Tr.of_tables (by rw [tables_closeTemp, h2]; exact h1)
       · rename_i s2 heq2; rw [heq2] at h2
-        have t0 : Tr e false s sp s2 sp := Tr.of_tables (by rw [h2]; exact h1)
+        have t0 : Tr e nf false s sp s2 sp := Tr.of_tables (by rw [h2]; exact h1)
         split
         · rw [herr]; exact Tr.of_tables (by rw [tables_closeTemp, tables_freeFd, h2]; exact h1)
         · simp only
           split
           · rw [herr]; exact Tr.of_tables (by rw [tables_closeTemp, tables_freeFd, h2]; exact h1)
-          · have ht := createTail_tr e (freeFd s2) sp p pst false a ohr _ hop
-            have t1 : Tr e false s sp (freeFd s2) sp := Tr.of_tables (by rw [tables_freeFd, h2]; exact h1)
+          · have ht := createTail_tr (nf := nf) e (freeFd s2) sp p pst false a ohr _ hop hf
+            have t1 : Tr e nf false s sp (freeFd s2) sp := Tr.of_tables (by rw [tables_freeFd, h2]; exact h1)
             exact (t1.trans' ht).trans' (Tr.of_tables (tables_closeTemp _ _))
-        · have ht := createTail_tr e s2 sp p pst true a ohr _ hop
+        · have ht := createTail_tr (nf := nf) e s2 sp p pst true a ohr _ hop hf
           split
           rename_i s3 r heq3
           rw [heq3] at ht
@@ -243,30 +273,34 @@ theorem deliverAll_append (sp : Spec) (l1 l2 : List (Ino × Bool)) :
     cases b <;> simp [Spec.deliverAll, ih]
 
 theorem rdpLoop_tr (e : Env) (dir : Ino) (tl : Tail) (sp0 : Spec) :
-    ∀ (ents : List DEnt) (s : St) (fit : Nat) (first : Bool) (acc : List (Ino × Bool)),
-      Tr e false s (sp0.deliverAll acc.reverse) (rdpLoop e s dir fit tl ents first acc).1
+    ∀ (ents : List DEnt), (nf = true → ∀ d ∈ ents, d.NoFh) →
+      ∀ (s : St) (fit : Nat) (first : Bool) (acc : List (Ino × Bool)),
+      Tr e nf false s (sp0.deliverAll acc.reverse) (rdpLoop e s dir fit tl ents first acc).1
         (sp0.deliverAll (rdpLoop e s dir fit tl ents first acc).2.1) := by
   intro ents
   induction ents with
-  | nil => intro s fit first acc; exact Tr.rfl' _ _
-  | cons d r ih =>
-    intro s fit first acc
+  | nil => intro _ s fit first acc; exact Tr.rfl' _ _
+  | cons d r ih0 =>
+    intro hfs s fit first acc
+    have ih := ih0 (fun h x hx => hfs h x (List.mem_cons_of_mem _ hx))
     cases d with
     | dot => simp only [rdpLoop]; exact ih s fit false acc
     | name a =>
       simp only [rdpLoop]
+      have hf : nf = true → a.NoFh := fun h => hfs h (.name a) List.mem_cons_self
       have hl := doLookup_eff e s dir false a
+      have hlu := doLookup_effU e s dir false a
       split
       · rename_i s1 er heq
-        rw [heq] at hl
-        exact Tr.lookup (sp := sp0.deliverAll acc.reverse) hl
+        rw [heq] at hl hlu
+        exact Tr.lookup (sp := sp0.deliverAll acc.reverse) hl hlu hf
       · rename_i s1 ino heq
-        rw [heq] at hl
+        rw [heq] at hl hlu
         cases fit with
         | succ k =>
           simp only
-          have t1 : Tr e false s (sp0.deliverAll acc.reverse) s1 ((sp0.deliverAll acc.reverse).deliver ino) :=
-            Tr.lookup hl
+          have t1 : Tr e nf false s (sp0.deliverAll acc.reverse) s1 ((sp0.deliverAll acc.reverse).deliver ino) :=
+            Tr.lookup hl hlu hf
           have e1 : (sp0.deliverAll acc.reverse).deliver ino
               = sp0.deliverAll ((ino, true) :: acc).reverse := by
             rw [List.reverse_cons, deliverAll_append]; rfl
@@ -274,8 +308,8 @@ theorem rdpLoop_tr (e : Env) (dir : Ino) (tl : Tail) (sp0 : Spec) :
           exact t1.trans' (ih s1 k false ((ino, true) :: acc))
         | zero =>
           simp only
-          have t1 : Tr e false s (sp0.deliverAll acc.reverse) (forgetOne e s1 ino 1) (sp0.deliverAll acc.reverse) :=
-            Tr.lookup_undo hl
+          have t1 : Tr e nf false s (sp0.deliverAll acc.reverse) (forgetOne e s1 ino 1) (sp0.deliverAll acc.reverse) :=
+            Tr.lookup_undo hl hlu hf
           have e1 : sp0.deliverAll ((ino, false) :: acc).reverse = sp0.deliverAll acc.reverse := by
             rw [List.reverse_cons, deliverAll_append]; rfl
           cases tl <;> simp only [e1] <;> exact t1
@@ -303,8 +337,9 @@ theorem cacheCookie_frame (e : Env) (s : St) (h : Hnd) (l : List DEnt) :
   unfold cacheCookie; split <;> exact ⟨rfl, rfl, rfl, rfl, rfl, rfl⟩
 
 theorem opReaddirplus_tr (e : Env) (s : St) (sp : Spec) (ino : Ino) (h : Hnd) (dhr : Errno)
-    (lst : Except Errno (List DEnt)) (fit : Nat) (tl : Tail) :
-    Tr e false s sp (opReaddirplus e s ino h dhr lst fit tl).1
+    (lst : Except Errno (List DEnt)) (fit : Nat) (tl : Tail)
+    (hf : nf = true → Op.NoFh (.readdirplus ino h dhr lst fit tl)) :
+    Tr e nf false s sp (opReaddirplus e s ino h dhr lst fit tl).1
       (sp.step (.readdirplus ino h dhr lst fit tl) (opReaddirplus e s ino h dhr lst fit tl).2) := by
   unfold opReaddirplus
   have h1 := tables_getDirdata_data e s ino h dhr
@@ -312,15 +347,17 @@ theorem opReaddirplus_tr (e : Env) (s : St) (sp : Spec) (ino : Ino) (h : Hnd) (d
   · rename_i s1 er _ heq; rw [heq] at h1; exact Tr.of_tables h1
   · rename_i s1 tmp heq; rw [heq] at h1
     have hc := consumeCookie_frame e s1 h
-    have t0 : Tr e false s sp (consumeCookie e s1 h) sp :=
-      (Tr.of_tables h1).trans' (Tr.frame hc.1 hc.2.1 hc.2.2.1 hc.2.2.2.1 hc.2.2.2.2.1 hc.2.2.2.2.2)
+    have t0 : Tr e nf false s sp (consumeCookie e s1 h) sp :=
+      (Tr.of_tables h1).trans' (Tr.frame hc.1 hc.2.1 hc.2.2.1 hc.2.2.2.1 hc.2.2.2.2.1 hc.2.2.2.2.2
+        (by unfold consumeCookie; split <;> exact ⟨rfl, rfl, rfl⟩))
     split
     · exact t0.trans' (Tr.of_tables (tables_closeTemp _ _))
     · rename_i l
       have hk := cacheCookie_frame e (consumeCookie e s1 h) h l
-      have t1 : Tr e false s sp (cacheCookie e (consumeCookie e s1 h) h l) sp :=
-        t0.trans' (Tr.frame hk.1 hk.2.1 hk.2.2.1 hk.2.2.2.1 hk.2.2.2.2.1 hk.2.2.2.2.2)
-      have hr := rdpLoop_tr e ino tl sp l (cacheCookie e (consumeCookie e s1 h) h l) fit true []
+      have t1 : Tr e nf false s sp (cacheCookie e (consumeCookie e s1 h) h l) sp :=
+        t0.trans' (Tr.frame hk.1 hk.2.1 hk.2.2.1 hk.2.2.2.1 hk.2.2.2.2.1 hk.2.2.2.2.2
+          (by unfold cacheCookie; split <;> exact ⟨rfl, rfl, rfl⟩))
+      have hr := rdpLoop_tr (nf := nf) e ino tl sp l hf (cacheCookie e (consumeCookie e s1 h) h l) fit true []
       split
       rename_i s2 acc er heq2
       rw [heq2] at hr
@@ -333,19 +370,19 @@ def Op.isDestroy : Op → Bool
   | _ => false
 
 /-- **every request moves the server state and the client ledger together** -/
-theorem step_tr (e : Env) (s : St) (sp : Spec) (op : Op) :
-    Tr e op.isDestroy s sp (step e s op).1 (sp.step op (step e s op).2) := by
+theorem step_tr (e : Env) (s : St) (sp : Spec) (op : Op) (hf : nf = true → op.NoFh) :
+    Tr e nf op.isDestroy s sp (step e s op).1 (sp.step op (step e s op).2) := by
   cases op with
   | lookup p pst a =>
     simp only [step]
     rw [spec_entryRes sp _ _ (Or.inl ⟨p, pst, a, rfl⟩), entryRes_fst]
-    exact doLookup_tr e s sp p pst a
+    exact doLookup_tr e s sp p pst a hf
   | forget i n => exact Tr.forget i n
   | batchForget l => exact batchForget_tr e l s sp
-  | mkdir p pst hr a => exact opMknod_tr e s sp p pst hr a _ (Or.inl rfl)
-  | mknod p pst hr a => exact opMknod_tr e s sp p pst hr a _ (Or.inr rfl)
-  | link i ist p pst hr a => exact opLink_tr e s sp i ist p pst hr a
-  | create p pst x cr a ohr => exact opCreate_tr e s sp p pst x cr a ohr
+  | mkdir p pst hr a => exact opMknod_tr e s sp p pst hr a _ (Or.inl rfl) hf
+  | mknod p pst hr a => exact opMknod_tr e s sp p pst hr a _ (Or.inr rfl) hf
+  | link i ist p pst hr a => exact opLink_tr e s sp i ist p pst hr a hf
+  | create p pst x cr a ohr => exact opCreate_tr e s sp p pst x cr a ohr hf
   | «open» i hr =>
     simp only [step, opOpen]
     split
@@ -355,7 +392,7 @@ theorem step_tr (e : Env) (s : St) (sp : Spec) (op : Op) :
       split
       · rename_i s1 er heq; rw [heq] at h1; exact Tr.of_tables h1
       · rename_i s1 heq; rw [heq] at h1
-        exact ((Tr.of_tables h1).trans' (Tr.hnds _)).trans' (Tr.frame rfl rfl rfl rfl rfl rfl)
+        exact ((Tr.of_tables h1).trans' (Tr.hnds _)).trans' (Tr.frame rfl rfl rfl rfl rfl rfl ⟨rfl, rfl, rfl⟩)
   | opendir i hr =>
     simp only [step, opOpendir]
     split
@@ -365,14 +402,14 @@ theorem step_tr (e : Env) (s : St) (sp : Spec) (op : Op) :
       split
       · rename_i s1 er heq; rw [heq] at h1; exact Tr.of_tables h1
       · rename_i s1 heq; rw [heq] at h1
-        exact ((Tr.of_tables h1).trans' (Tr.hnds _)).trans' (Tr.frame rfl rfl rfl rfl rfl rfl)
+        exact ((Tr.of_tables h1).trans' (Tr.hnds _)).trans' (Tr.frame rfl rfl rfl rfl rfl rfl ⟨rfl, rfl, rfl⟩)
   | release i h =>
     simp only [step, opRelease]
     split
     · exact Tr.rfl' s sp
     · unfold doRelease
       split
-      · exact (Tr.hnds _).trans' (Tr.frame rfl rfl rfl rfl rfl rfl)
+      · exact (Tr.hnds _).trans' (Tr.frame rfl rfl rfl rfl rfl rfl ⟨rfl, rfl, rfl⟩)
       · exact Tr.rfl' s sp
   | releasedir i h =>
     simp only [step, opReleasedir]
@@ -380,9 +417,9 @@ theorem step_tr (e : Env) (s : St) (sp : Spec) (op : Op) :
     · exact Tr.rfl' s sp
     · unfold doRelease
       split
-      · exact (Tr.hnds _).trans' (Tr.frame rfl rfl rfl rfl rfl rfl)
+      · exact (Tr.hnds _).trans' (Tr.frame rfl rfl rfl rfl rfl rfl ⟨rfl, rfl, rfl⟩)
       · exact Tr.rfl' s sp
-  | readdirplus i h dhr lst fit tl => exact opReaddirplus_tr e s sp i h dhr lst fit tl
+  | readdirplus i h dhr lst fit tl => exact opReaddirplus_tr e s sp i h dhr lst fit tl hf
   | getattr i h hr =>
     simp only [step, opGetattr]
     split
@@ -425,7 +462,10 @@ theorem step_tr (e : Env) (s : St) (sp : Spec) (op : Op) :
         split <;> exact Tr.of_tables (by rw [tables_closeTemp]; exact h1)
   | destroy root =>
     simp only [step, opDestroy]
-    have hclear : Tr e true s sp (clearAll s) Spec.init := by
+    have hclear : Tr e nf true s sp (clearAll s) Spec.init := by
+      have hsame : AllocSame s (clearAll s) := by
+        unfold clearAll
+        exact AllocSame.trans ⟨rfl, rfl, rfl⟩ (AllocSame.of_tables (dropAll_tables _ _))
       unfold clearAll
       apply Tr.clear
       · rw [data_of_tables (dropAll_tables _ _)]
@@ -434,11 +474,12 @@ theorem step_tr (e : Env) (s : St) (sp : Spec) (op : Op) :
       · rw [byId_of_tables (dropAll_tables _ _)]
       · rw [byHandle_of_tables (dropAll_tables _ _)]
       · rw [next_of_tables (dropAll_tables _ _)]
-    have hi := importRoot_tr e (clearAll s) Spec.init root
+      · exact hsame
+    have hi := importRoot_tr (nf := nf) e (clearAll s) Spec.init root hf
     exact Tr.trans hclear hi
   | init root =>
     simp only [step, opInit]
-    have hi := importRoot_tr e s sp root
+    have hi := importRoot_tr (nf := nf) e s sp root hf
     split
     · rename_i heq; rw [heq] at hi; exact hi
     · rename_i heq; rw [heq] at hi; exact hi
